@@ -18,7 +18,8 @@ RULE = (
     "case = a history (Hypothesis RuleBasedStateMachine, up to 40 steps) of "
     "mode switches over the 7 spellings - through Calendar.set_mode, "
     "DateTimeOperator(calendar_mode=...), the ISODATETIMECALENDAR variable "
-    "(and its absence, which resets to gregorian), main(--calendar ...) - "
+    "(and its absence, which resets to gregorian), main(--calendar ...), the "
+    "option next to a conflicting environment variable (the option wins) - "
     "interleaved with calendar computations with generated arguments drawn "
     "from a small pool so that the same call recurs under different modes: "
     "the six conversions, year/month/week lengths, year ranges, week-year "
@@ -239,6 +240,16 @@ def do_switch(state, step):
                          reset_mode=None)
         elif via == "cli_env":
             c19.run_main(["2000"], {ENV: sp}, [0, 0, 0, 0], reset_mode=None)
+        elif via in ("cli_both", "oper_both"):
+            # the option wins over a conflicting environment variable
+            # (documented order: --calendar, ISODATETIMECALENDAR, gregorian)
+            other = step.get("other") or "360day"
+            if via == "cli_both":
+                c19.run_main(["--calendar", expect, "2000"], {ENV: other},
+                             [0, 0, 0, 0], reset_mode=None)
+            else:
+                os.environ[ENV] = other
+                datetimeoper.DateTimeOperator(calendar_mode=sp)
         elif via == "cli_none":
             c19.run_main(["2000"], {}, [0, 0, 0, 0], reset_mode=None)
             expect = "gregorian"
@@ -410,6 +421,20 @@ def make_machine(ctx, workers, seen):
         def switch_other(self, spelling, via):
             self.switch(spelling=spelling, via=via)
 
+        @rule(spelling=SPELL, other=SPELL,
+              via=st.sampled_from(["cli_both", "oper_both"]))
+        def switch_both(self, spelling, other, via):
+            if ctx.shrink_expired():
+                return
+            step = {"do": "switch", "via": via, "spelling": spelling,
+                    "other": other}
+            self.steps.append(step)
+            fail = do_switch(self.state, step)
+            self.modes.add(self.state.mode)
+            ctx.classes["switch/" + via] += 1
+            if fail:
+                self._fail(fail)
+
         @rule(i=st.integers(0, 5), y=Y, f=Fr)
         def conv(self, i, y, f):
             self._compute({"k": "conv", "i": i, "y": y, "f": f})
@@ -429,6 +454,14 @@ def make_machine(ctx, workers, seen):
 
         @rule(y=Y, f=Fr, rep=REP, d=st.integers(0, len(DURS) - 1))
         def add(self, y, f, rep, d):
+            self._compute({"k": "add", "y": y, "f": f, "rep": rep, "d": d})
+
+        @rule(y=Y, f=st.sampled_from([0, 0, 1, 58, 59, 60, 359, 364, 365]),
+              rep=REP, d=st.sampled_from([0, 1, 9, 9, 10, 3, 2]))
+        def add_at_year_edge(self, y, f, rep, d):
+            # a day or a year's worth of days either way from the first / last
+            # days of a year and around the end of February: where the carry
+            # depends on the mode's year and month lengths
             self._compute({"k": "add", "y": y, "f": f, "rep": rep, "d": d})
 
         @rule(y=Y, f=Fr, rep=REP, n=st.sampled_from([1, -1, 11, -11, 12, 13, -13]))
@@ -487,7 +520,7 @@ def run_shard(ctx):
     seen = {}
     try:
         ctx.machine(make_machine(ctx, workers, seen),
-                    max_examples=60 if quick else 1500,
+                    max_examples=120 if quick else 1500,
                     steps=30 if quick else 40)
     finally:
         workers.close()
